@@ -17,7 +17,8 @@ From TucModel Require Import Base.Bytes Base.ListX Model.Bounds Spec.Resolve Pro
   Tie.Gen_ubl_is_forward_only Tie.Bridge_ubl_is_forward_only
   Model.Scan Model.Regex Model.Opt Model.Stream Model.FastLane Tie.RsOpt
   Tie.Gen_fast_try_from Tie.Bridge_fast_try_from Tie.Gen_stream_try_from Tie.Bridge_stream_try_from
-  Proofs.C13 Proofs.C06 Proofs.C03Full Proofs.C19.
+  Model.BoundsParse Spec.BoundsGrammar Tie.RsStr Tie.Gen_side_from_str Tie.Bridge_side_from_str Tie.Gen_ub_from_str Tie.Bridge_ub_from_str
+  Proofs.C13 Proofs.C06 Proofs.C03Full Proofs.C19 Proofs.C18Iff.
 Import ListNotations.
 Local Open Scope Z_scope.
 
@@ -158,7 +159,20 @@ Proof.
     destruct (o_delim o) as [|d l]; [discriminate|]. eexists; reflexivity.
 Qed.
 
+(** C18 / C12: the translated [UserBounds::from_str] accepts a text exactly when it is a bound of the
+    documented language ([bound_text], Spec/BoundsGrammar.v, written from the documentation) and builds
+    the bound the grammar assigns; it never panics, whatever the text. *)
+Theorem tie_C18_bound_accepted_iff : forall (s : bytes) (b : ubound),
+  Z.of_nat (length s) < usize_max ->
+  (gen_ub_from_str s = Ret (Some b) <-> bound_text s b)
+  /\ (exists r, gen_ub_from_str s = Ret r).
+Proof.
+  intros s b H. rewrite (tie_ub_from_str s H). split; [|eexists; reflexivity].
+  rewrite <- (parse_bound_iff s b). split; [intros E; injection E as E; exact E | intros ->; reflexivity].
+Qed.
+
 Print Assumptions tie_try_into_range_spec.
+Print Assumptions tie_C18_bound_accepted_iff.
 Print Assumptions tie_C19_fixed_memory_eligibility.
 Print Assumptions tie_C02_fast_path_domain.
 Print Assumptions tie_forward_only_spec.
